@@ -35,7 +35,13 @@ def main():
         return rc
     except core.HarnessError as e:
         print('HARNESS-ERROR %s: %s' % (a.pid, e))
-        return 2
+        if str(e).startswith(('cpppo imported', 'coq_makefile', 'model build', 'extraction failed', 'ocaml build', 'vmodel', 'forbidden constructs')):
+            return 2                         # the machinery itself could not be built / run
+        # a precondition the harness establishes by running the implementation (a fault-free baseline, the simulator starting up, ...)
+        # does not hold: on the unchanged tree it does, so the property is no longer shown to hold for this tree
+        ctx.unresolved('a baseline the check establishes by running the implementation failed', dict(message=str(e)[:1500]))
+        ctx.coverage.setdefault('obligations', 0); ctx.coverage.setdefault('discharged', 0); ctx.coverage.setdefault('evaluations', 0)
+        return ctx.finish()
     except Exception as e:
         # the implementation (or the harness driving it) raised where the unchanged tree does not: the
         # correspondence could not be evaluated, so the property is no longer shown to hold
